@@ -4,7 +4,7 @@
    its task and carry the same value; final state = implementation's result),
    and the certified checker judges the implementation's output and trace.
    Depends on the model only (not on the proofs). *)
-From Coupe Require Import Lib.Prelude Lib.SFloat Lib.Report Model.ArcSwap.
+From Coupe Require Import Lib.Prelude Lib.SFloat Lib.Report Model.ArcSwap Model.ArcSwapF64 Gen.ArcSwapGen.
 Open Scope Z_scope.
 
 Record case05 := mk05 {
@@ -13,10 +13,11 @@ Record case05 := mk05 {
   c_trace : list N;                (* encoded access events, global order *)
   c_impl : impl_res;               (* final part ids *)
   c_md : list Z;                   (* Metadata: gain, passes, attempts, moves, races, locked, no_gain, bad_balance, per_thread *)
-  c_wk : N                         (* 0: i64 vertex weights = c_vw; 1: f64 vertex weights (c_vw times a fraction) *)
+  c_wk : N                         (* 0: i64 vertex weights = c_vw; 1: f64 vertex weights (c_vw times a fraction), outputs only;
+                                      2: f64 vertex weights with exact sums, c_vw = their bit patterns, replayed *)
 }.
 
-Definition eval05 (c : case05) : verdict :=
+Definition eval05i (c : case05) : verdict :=
   let g := c_rows c in
   let n := length (c_p0 c) in
   let k := part_count (c_p0 c) in
@@ -50,12 +51,13 @@ Definition eval05 (c : case05) : verdict :=
     else true in
   (* correspondence: the machine, started as arc_swap starts, accepts every recorded event and
      ends (outer loop left) in the implementation's final partition and Metadata.  The machine runs
-     with [headroom_checked]: the f64 share of arc_swap, rejected where it is not the exact quotient *)
+     with the share in the form the translator read from the source ([share_i64_run]: the exact quotient
+     when the code divides in W; the f64 round trip, rejected where it is not the exact quotient, otherwise) *)
   let corr :=
     if f64w then true else
     match c_impl c, cap, tr with
     | IOk p, Some cp, Some evs =>
-      let cf := config_of headroom_checked g (c_vw c) (c_p0 c) (c_threads c) cp in
+      let cf := config_of (share_i64_run arcswap_share_in_W) g (c_vw c) (c_p0 c) (c_threads c) cp in
       match init_state cf (c_p0 c) with
       | None => false
       | Some st0 =>
@@ -77,5 +79,62 @@ Definition eval05 (c : case05) : verdict :=
     | IPanic => 2%N | IHang => 3%N | IErr _ _ _ => 5%N
     end in
   {| corr_ok := corr; prop_ok := prop; cls := cls |}.
+
+(* f64 vertex weights with exact sums (c_wk = 2): the recorded trace is replayed through the f64
+   instance of the machine (wops_f64: every weight operation is the SpecFloat operation on the bit
+   patterns); the checker judges the weight-independent clauses and, with f64 comparisons on the
+   exactly summed loads, the caps *)
+Definition eval05x (c : case05) : verdict :=
+  let g := c_rows c in
+  let n := length (c_p0 c) in
+  let k := part_count (c_p0 c) in
+  let '(ipt, tc) := work_share n (c_threads c) in
+  let mi := option_map (fun b => f64_of_bits b) (c_mi c) in
+  let ld p q := wload (W := wops_f64) (c_vw c) p q in
+  let cap := cap_f64w mi (wloads (W := wops_f64) (c_vw c) (c_p0 c) k) k in
+  let in_contract :=
+    Nat.ltb 0 n && Nat.eqb (length g) n && Nat.eqb (length (c_vw c)) n && Nat.leb 1 (c_threads c)
+    && graph_okb g
+    && forallb (fun z => (0 <=? z) && is_finite (fz z) && negb (flt (fz z) (f64_of_Z 0))) (c_vw c) in
+  let tr := decode_trace (c_trace c) in
+  let md i := nth i (c_md c) (-1) in
+  let prop :=
+    if in_contract then
+      match cap, tr, c_impl c with
+      | Some cp, Some evs, IOk p =>
+          let o := mkOut (map N.to_nat p) (md 0%nat) (md 3%nat) in
+          check_valid n k (o_part o) && check_accounting g (c_p0 c) o && check_moves (c_p0 c) o
+          && trace_mutex g (repeat TIdle tc) evs
+          && forallb (fun q => let bound := if flt (fz (ld (c_p0 c) q)) (fz cp) then cp else ld (c_p0 c) q in
+                               negb (flt (fz bound) (fz (ld (o_part o) q)))) (seq 0 k)
+      | _, _, _ => false
+      end
+    else true in
+  let corr :=
+    match c_impl c, cap, tr with
+    | IOk p, Some cp, Some evs =>
+      let cf := config_of headroom_f64w g (c_vw c) (c_p0 c) (c_threads c) cp in
+      match init_state (W := wops_f64) cf (c_p0 c) with
+      | None => false
+      | Some st0 =>
+        match replay (W := wops_f64) cf st0 evs with
+        | None => false
+        | Some st =>
+          g_fin st && list_eqb Nat.eqb (g_part st) (map N.to_nat p)
+          && list_eqb Z.eqb (md_list (g_md st) ++ [Z.of_nat ipt]) (c_md c)
+          && list_eqb Z.eqb (g_pw st) (wloads (W := wops_f64) (c_vw c) (g_part st) k)
+        end
+      end
+    | IOk _, _, _ => false
+    | _, _, _ => true
+    end in
+  let cls :=
+    match c_impl c with
+    | IOk _ => if negb in_contract then 4%N else if 0 <? md 3%nat then 9%N else 8%N
+    | IPanic => 2%N | IHang => 3%N | IErr _ _ _ => 5%N
+    end in
+  {| corr_ok := corr; prop_ok := prop; cls := cls |}.
+
+Definition eval05 (c : case05) : verdict := if (c_wk c =? 2)%N then eval05x c else eval05i c.
 
 Definition run05 (cs : list case05) := report (map eval05 cs).
